@@ -21,7 +21,7 @@ type c17 struct{}
 func (c17) ID() string    { return "C17" }
 func (c17) Level() string { return "exploration" }
 func (c17) Rule() string {
-	return "full product of {explicit name: unset, ok, invalid x2} x {COMPOSE_PROJECT_NAME: absent | via WithEnv, OS, .env; valid or invalid} x {name: in none/first/last/both of two files or a second --- document} x {name text: literal, ${VAR} set, ${VAR} unset, mixed case, normalises to empty} x {directory base name: plain, upper+dot, leading symbol, unicode, normalises to empty}, loaded through cli.NewProjectOptions/LoadProject; and a variable defined in every non-empty subset of {WithEnv, OS environment, .env #1, .env #2} under all 8 documented option orders, plus .env #2 values referencing a variable defined in each subset of the layers above. Reference = the precedence chains of Appendix A.4. distinct = distinct (configuration class, outcome) pairs"
+	return "full product of {explicit name: unset, ok, invalid x2} x {COMPOSE_PROJECT_NAME: absent | via WithEnv, OS, .env; valid or invalid} x {name: in none/first/last/both of two files or a second --- document} x {name text: literal, ${VAR} set, ${VAR} unset, mixed case, normalises to empty} x {directory base name: plain, upper+dot, leading symbol, unicode, normalises to empty}, loaded through cli.NewProjectOptions/LoadProject; every string of length <= 3 over 8 character classes (lower, upper, digit, _, -, ., @, non-ASCII) as directory base name and as literal file name; and a variable defined in every non-empty subset of {WithEnv, OS environment, .env #1, .env #2} under all 8 documented option orders, plus .env #2 values referencing a variable defined in each subset of the layers above. Reference = the precedence chains of Appendix A.4. distinct = distinct (configuration class, outcome) pairs"
 }
 func (c17) Assumptions() []string {
 	return []string{
@@ -98,6 +98,31 @@ func (c17) Run(c *core.Ctx) {
 				}
 			}
 		}
+	}
+	// every short string over the character classes as directory base name and as file name: literal
+	alphabet := []string{"a", "B", "7", "_", "-", ".", "@", "é"}
+	var shapes []string
+	var gen func(prefix string, n int)
+	gen = func(prefix string, n int) {
+		if prefix != "" {
+			shapes = append(shapes, prefix)
+		}
+		if n == 0 {
+			return
+		}
+		for _, a := range alphabet {
+			gen(prefix+a, n-1)
+		}
+	}
+	gen("", 3)
+	for _, sh := range shapes {
+		sh := sh
+		if sh != "." && sh != ".." {
+			nc := c17nameCase{"", 0, true, 0, 0, sh}
+			c.Do("shape/dir/"+sh, func() core.Outcome { return c17nameCheck(base, nc, texts, textVal) })
+		}
+		nc := c17nameCase{"", 0, true, 1, 0, "app"}
+		c.Do("shape/file/"+sh, func() core.Outcome { return c17nameCheck(base, nc, []string{sh}, []string{c17norm(sh)}) })
 	}
 	c17envLattice(c, base)
 }
